@@ -130,8 +130,10 @@ def judge_model(spec, backend):
     return validate_posed(pep, backend)
 
 
-def validate_posed(pep, backend):
-    """Translation validation of an already solved problem whose wrapper is a recording subclass."""
+def validate_posed(pep, backend, dr=False):
+    """Translation validation of an already solved problem whose wrapper is a recording subclass.
+    dr: a dimension-reduction heuristic was used: the final problem carries one extra (untracked) optimality row and a
+    replaced objective, which are C11 / C14's business; they are accounted for, not judged, here."""
     from PEPit.point import Point
     from PEPit.expression import Expression
     probs = []
@@ -158,7 +160,8 @@ def validate_posed(pep, backend):
     for call in calls:
         kind, obj = call[0], call[1]
         if kind == "untracked":
-            probs.append(("model:untracked-row:%s" % backend, "an untracked constraint was sent without dimension reduction"))
+            if not dr:
+                probs.append(("model:untracked-row:%s" % backend, "an untracked constraint was sent without dimension reduction"))
             continue
         if id(obj) in declared:
             sent[id(obj)] = sent.get(id(obj), 0) + 1
@@ -234,12 +237,14 @@ def validate_posed(pep, backend):
                         probs.append(("model:lmi-entry:%s" % backend, "entry (%d,%d) is tied to auxiliary entry %s with sense %s" % (i, j, row["lmi"][1:], row["sense"])))
                     elif not close(row["vec"], ref):
                         probs.append(("model:lmi-data:%s" % backend, "the data sent for LMI entry (%d,%d) denote another affine function" % (i, j)))
+    if dr and backend == "cvxpy":
+        nrows += 1          # the optimality row appended by prepare_heuristic (not a send call on the cvxpy path)
     if nrows != len(posed["rows"]):
         probs.append(("model:extra-rows:%s" % backend, "%d solver rows, %d accounted for by send calls" % (len(posed["rows"]), nrows)))
     if len(aux_seen) != len(posed["lmis"]):
         probs.append(("model:extra-matrix-variable:%s" % backend, "%d auxiliary matrix variables, %d LMIs sent" % (len(posed["lmis"]), len(aux_seen))))
     # ---- objective
-    if posed["objsense"] != "max" or not close(posed["objective"], objvec):
+    if not dr and (posed["objsense"] != "max" or not close(posed["objective"], objvec)):
         probs.append(("model:objective:%s" % backend, "the solver objective is not 'maximise the objective leaf'"))
     # dedupe by key
     seen, out = set(), []
